@@ -481,7 +481,7 @@ fn variants_part(ctx: &Ctx) {
     transitions += res2.accs.iter().sum::<u64>();
     // character data in its degenerate forms (text, white-space-only text, empty CDATA sections): every
     // ordered pair of documents, and the pair followed by the first document again
-    let cd: Vec<DocEntry> = materialise(chardata_cfg(ctx.tier.pick(3, 4)));
+    let cd: Vec<DocEntry> = materialise(chardata_cfg(3));
     let c = cd.len() as u64;
     let res3 = crate::par::par_for(
         c * c,
